@@ -465,7 +465,7 @@ func (p *c09) Shrink(scAny any) []any {
 
 func (p *c09) Info() PropInfo {
 	return PropInfo{
-		Rule:            "per stored message (80% renderings of generated messages incl. awkward file names, 10% fixtures of /repo/testdata, 10% random bytes) 250 (thorough: 300) seeded cases, each = 0..3 storage faults {truncate, torn write with a second message, lost range, duplicated range, zeroed block, byte flip, bit flip, CRLF->LF from an offset, emptied parameter value, inserted token, header field value replaced by a degenerate one (empty groups, lone separators, half-finished parameters, ...)} at offsets biased (3:1) to positions next to ; = \" : - < > / , CR LF, read back through EMLToMsgFromReader with a reader of drawn chunking / (n>0, EOF) / error at an offset / (0,nil) runs, or through EMLToMsgFromString / EMLToMsgFromFile; evaluations = parses; distinct = distinct stored messages",
+		Rule:            "per stored message (80% renderings of generated messages incl. awkward file names, 10% fixtures of /repo/testdata, 10% random bytes) 250 (thorough: 300) seeded cases, each = 0..3 storage faults {truncate, torn write with a second message, lost range, duplicated range, zeroed block, byte flip, bit flip, CRLF->LF from an offset, emptied parameter value, inserted token, a prefix put in front of the message (byte-order mark whole or cut, mbox separator line, blank lines), header field value replaced by a degenerate one (empty groups, lone separators, half-finished parameters, ...)} at offsets biased (3:1) to positions next to ; = \" : - < > / , CR LF, read back through EMLToMsgFromReader with a reader of drawn chunking / (n>0, EOF) / error at an offset / (0,nil) runs, or through EMLToMsgFromString / EMLToMsgFromFile; evaluations = parses; distinct = distinct stored messages",
 		Assumptions:     []string{"termination is judged by a 10 s wall-clock watchdog per parse of at most a few KiB, re-checked once before it is reported", "no statement about the value returned"},
 		Real:            []string{"go-mail eml.go (all three entry points) and the Msg setters it calls", "net/mail, mime, mime/multipart, mime/quotedprintable"},
 		Stubbed:         []string{"stored bytes (fault-injected)", "io.Reader (fault-injecting)", "corpus rendering runs on a virtual clock with seeded randomness"},
